@@ -89,6 +89,42 @@ var c04Core = [][2]string{
 	{"WcSplitMergeTimings", "tlb.WcSplitMergeTimings"},
 	{"PrecompiledSmc", "tlb.PrecompiledSmc"},
 	{"CatchainConfig", "tlb.CatchainConfig"},
+	{"ConfigParam0", "tlb.ConfigParam0"},
+	{"ConfigParam1", "tlb.ConfigParam1"},
+	{"ConfigParam2", "tlb.ConfigParam2"},
+	{"ConfigParam3", "tlb.ConfigParam3"},
+	{"ConfigParam4", "tlb.ConfigParam4"},
+	{"BurningConfig", "tlb.BurningConfig"},
+	{"ConfigParam5", "tlb.ConfigParam5"},
+	{"ConfigParam6", "tlb.ConfigParam6"},
+	{"ConfigParam7", "tlb.ConfigParam7"},
+	{"ConfigParam8", "tlb.ConfigParam8"},
+	{"ConfigProposalSetup", "tlb.ConfigProposalSetup"},
+	{"ConfigVotingSetup", "tlb.ConfigVotingSetup"},
+	{"ConfigParam11", "tlb.ConfigParam11"},
+	{"ConfigProposal", "tlb.ConfigProposal"},
+	{"ConfigParam13", "tlb.ConfigParam13"},
+	{"ConfigParam14", "tlb.ConfigParam14"},
+	{"ConfigParam15", "tlb.ConfigParam15"},
+	{"ConfigParam16", "tlb.ConfigParam16"},
+	{"ConfigParam17", "tlb.ConfigParam17"},
+	{"ConfigParam22", "tlb.ConfigParam22"},
+	{"ConfigParam23", "tlb.ConfigParam23"},
+	{"ConfigParam24", "tlb.ConfigParam24"},
+	{"ConfigParam25", "tlb.ConfigParam25"},
+	{"ConfigParam28", "tlb.ConfigParam28"},
+	{"ConsensusConfig", "tlb.ConsensusConfig"},
+	{"ConfigParam29", "tlb.ConfigParam29"},
+	{"MisbehaviourPunishmentConfig", "tlb.MisbehaviourPunishmentConfig"},
+	{"ConfigParam40", "tlb.ConfigParam40"},
+	{"SizeLimitsConfig", "tlb.SizeLimitsConfig"},
+	{"ConfigParam43", "tlb.ConfigParam43"},
+	{"JettonBridgePrices", "tlb.JettonBridgePrices"},
+	{"OracleBridgeParams", "tlb.OracleBridgeParams"},
+	{"PrecompiledContractsConfig", "tlb.PrecompiledContractsConfig"},
+	{"SuspendedAddressList", "tlb.SuspendedAddressList"},
+	{"AccountDispatchQueue", "tlb.AccountDispatchQueue"},
+	{"BlockInfoPart", "tlb.BlockInfoPart"},
 }
 
 // the Go type is found from the descriptor: the case carries the schema name,
